@@ -270,7 +270,7 @@ bool FileManager::readStream(std::istream &_istream, MeshT &_mesh,
     /*
      * Cells
      */
-    size_t n_cells;
+    size_t n_cells = 0;
     getCleanLine(_istream, line);
     sstr.clear();
     sstr.str(line);
